@@ -11,7 +11,49 @@ def sh(cmd, cwd=None, timeout=3600, env=None):
     p = subprocess.run(cmd, shell=True, cwd=cwd, stdout=subprocess.PIPE, stderr=subprocess.STDOUT, timeout=timeout, env=env)
     return p.returncode, p.stdout.decode('utf-8', 'replace')
 
+def run_checks(patch, checks):
+    results = {}
+    rc, out = sh('git -C /repo apply %s' % patch)
+    if rc != 0:
+        print('patch does not apply to /repo:', out)
+        return None
+    try:
+        for c in checks:
+            t0 = time.time()
+            rc, out = sh('./check.py %s --tier quick' % c, cwd='/verif', timeout=3600)
+            viol = [l for l in out.split('\n') if l.startswith('VIOLATION')]
+            msgs = [l for l in out.split('\n') if l.startswith(c + ':')]
+            results[c] = {'rc': rc, 'violations': viol[:3], 'first_message': (msgs[0] if msgs else '')[:300],
+                          'wall_s': round(time.time() - t0, 1)}
+            print(c, 'rc=%d' % rc, viol[:1])
+    finally:
+        sh('git -C /repo checkout -- .')
+        sh('python3 /verif/tools/extract.py')
+    return results
+
+
+def recheck():
+    """seed_eval.py --recheck <name> [check ids...] [--set key=value ...]: run the checks again against a stored change"""
+    name = sys.argv[2]
+    dest = os.path.join('/verif/seeded', name)
+    meta = json.load(open(os.path.join(dest, 'meta.json')))
+    checks = [a for a in sys.argv[3:] if not a.startswith('--') and '=' not in a] or [meta['property']]
+    for a in sys.argv[3:]:
+        if '=' in a and not a.startswith('--'):
+            k, v = a.split('=', 1)
+            meta[k] = v
+    res = run_checks(os.path.join(dest, 'patch.diff'), checks)
+    if res is not None:
+        meta.setdefault('checks_against_change', {}).update(res)
+        meta['detected_by'] = [c for c, r in meta['checks_against_change'].items() if r['rc'] == 1 and r['violations']]
+    with open(os.path.join(dest, 'meta.json'), 'w') as f:
+        json.dump(meta, f, indent=1)
+    return 0
+
+
 def main():
+    if sys.argv[1] == '--recheck':
+        return recheck()
     pid, wt, name = sys.argv[1:4]
     checks = [pid] + sys.argv[4:]
     seed = os.path.join(wt, '_seed')
@@ -46,6 +88,11 @@ def main():
     shutil.copy(patch, dest)
     if os.path.isdir(os.path.join(seed, 'demo')):
         shutil.copytree(os.path.join(seed, 'demo'), os.path.join(dest, 'demo'), ignore=shutil.ignore_patterns('*.o', 'a.out', 'demo', 'demo_bin', '*.blog', '_build'))
+    for a in sys.argv[4:]:
+        if '=' in a:
+            k, v = a.split('=', 1)
+            meta[k] = v
+    checks = [c for c in checks if '=' not in c]
     for f in ('NOTES.md', 'SCHEDULE.md'):
         if os.path.exists(os.path.join(seed, f)):
             shutil.copy(os.path.join(seed, f), dest)
